@@ -218,6 +218,16 @@ DoneErrPairs ==
        MissTok(S.errs[e].k) # "" =>
          \E i \in 1..Len(S.toks) : /\ S.toks[i].ty = MissTok(S.errs[e].k)
                                     /\ S.toks[i].c = S.errs[e].c /\ TokEnd(i) = S.toks[i].c
+\* The hypotheses of spec/BufferProof.tla (BufOK2), on the model's buffer, in every reachable state: line starts are
+\* strictly increasing, every token carries the index of the line its start lies on, token starts never decrease.
+\* With the two theorems proved there by tlapm for *every* such buffer this gives C04 (start line) and C05
+\* (bulk view = accessors = text) for the model's output at the design level.
+BufferOK ==
+  /\ \A a, b \in 1..Len(S.lines) : a < b => S.lines[a] < S.lines[b]
+  /\ \A j \in 1..Len(S.toks) :
+        LET l == S.toks[j].l + 1  c == S.toks[j].c IN
+        /\ l \in 1..Len(S.lines) /\ S.lines[l] <= c /\ (l = Len(S.lines) \/ S.lines[l + 1] > c)
+  /\ \A j \in 1..(Len(S.toks) - 1) : S.toks[j].c <= S.toks[j+1].c
 \* C11 (design level): on macro-free text the operational model and the declarative reference lexer of
 \* OpenCode.tla agree on tokens (type, channel, extent) and errors (kind, position), when lexing is done.
 \* (The unterminated-datalines tail is left open by the reference: data + terminator must tile it.)
